@@ -5,6 +5,7 @@ import (
 	"errors"
 	"runtime"
 	"strings"
+	"sync/atomic"
 	"time"
 
 	"github.com/lestrrat-go/jwx/v2/jwk"
@@ -44,9 +45,16 @@ type Env struct {
 	RedisCmds   []string
 	RedisFaults map[int]string // command index within this check -> before | after
 	RedisFailed bool
+	Seq         int64 // identifies the check this log belongs to
+	// Cancel cancels the context of the check (fault modes "cancel": before the environment call; "cancel-after": after
+	// its effect, before the call returns) - the caller gave up: ext_authz time-out, client gone
+	Cancel func()
 }
 
+var envSeq int64
+
 func (e *Env) reset(f map[int]string) {
+	e.Seq = atomic.AddInt64(&envSeq, 1)
 	e.Calls = nil
 	e.Faults = f
 	e.RedisCmds = nil
@@ -118,6 +126,10 @@ type SpyStore struct {
 	Born map[string]time.Time
 	// RemovedBy: who (call chain inside internal/authz) last removed the session under an id through the interface
 	RemovedBy map[string]string
+	// a check that removes a session and writes it again under the same id has not started a new session: the entry
+	// keeps the birth date it had (removedBorn/removedIn remember the removal until the end of that check)
+	removedBorn map[string]time.Time
+	removedIn   map[string]int64
 	// Log is the log of all effective calls of the whole history (for monitors that need history).
 	Log []EnvCall
 }
@@ -159,6 +171,9 @@ func (w *World) begin(kind, method, sid string) (env *Env, idx int, fault string
 	env = w.CurEnv()
 	idx = len(env.Calls)
 	fault = env.Faults[idx]
+	if fault == "cancel" && env.Cancel != nil {
+		env.Cancel()
+	}
 	c := EnvCall{Kind: kind, Method: method, SID: sid, Fault: fault, Step: step}
 	if kind == "store" {
 		c.Caller = callerInAuthz()
@@ -181,6 +196,9 @@ func (s *SpyStore) ghost(sid string) *GhostSession {
 	g := s.Ghost[sid]
 	if g == nil {
 		s.Born[sid] = now
+		if b, ok := s.removedBorn[sid]; ok && s.removedIn[sid] == s.W.CurEnv().Seq {
+			s.Born[sid] = b
+		}
 		g = &GhostSession{}
 		s.Ghost[sid] = g
 	}
@@ -212,24 +230,29 @@ func (s *SpyStore) do(method, sid string, tokens *oidc.TokenResponse, state *oid
 		env.Calls[idx].Failed = true
 		return ErrInjected
 	}
+	if fault == "cancel-after" && env.Cancel != nil {
+		env.Cancel()
+	}
 	return err
 }
 
-func (s *SpyStore) SetTokenResponse(ctx context.Context, sid string, t *oidc.TokenResponse) error {
+func (s *SpyStore) SetTokenResponse(ctx context.Context, key string, t *oidc.TokenResponse) error {
+	sid := s.W.CanonSID(key) // book-keeping by session id, whatever key naming the caller uses
 	var cp *oidc.TokenResponse
 	if t != nil {
 		c := *t
 		cp = &c
 	}
-	return s.do("SetTokenResponse", sid, cp, nil, func() error { return s.Real.SetTokenResponse(ctx, sid, t) },
+	return s.do("SetTokenResponse", sid, cp, nil, func() error { return s.Real.SetTokenResponse(ctx, key, t) },
 		func() { s.ghost(sid).Tokens = cp })
 }
 
-func (s *SpyStore) GetTokenResponse(ctx context.Context, sid string) (*oidc.TokenResponse, error) {
+func (s *SpyStore) GetTokenResponse(ctx context.Context, key string) (*oidc.TokenResponse, error) {
+	sid := s.W.CanonSID(key) // book-keeping by session id, whatever key naming the caller uses
 	var out *oidc.TokenResponse
 	err := s.do("GetTokenResponse", sid, nil, nil, func() error {
 		var e error
-		out, e = s.Real.GetTokenResponse(ctx, sid)
+		out, e = s.Real.GetTokenResponse(ctx, key)
 		return e
 	}, func() {})
 	if err != nil {
@@ -238,21 +261,23 @@ func (s *SpyStore) GetTokenResponse(ctx context.Context, sid string) (*oidc.Toke
 	return out, nil
 }
 
-func (s *SpyStore) SetAuthorizationState(ctx context.Context, sid string, a *oidc.AuthorizationState) error {
+func (s *SpyStore) SetAuthorizationState(ctx context.Context, key string, a *oidc.AuthorizationState) error {
+	sid := s.W.CanonSID(key) // book-keeping by session id, whatever key naming the caller uses
 	var cp *oidc.AuthorizationState
 	if a != nil {
 		c := *a
 		cp = &c
 	}
-	return s.do("SetAuthorizationState", sid, nil, cp, func() error { return s.Real.SetAuthorizationState(ctx, sid, a) },
+	return s.do("SetAuthorizationState", sid, nil, cp, func() error { return s.Real.SetAuthorizationState(ctx, key, a) },
 		func() { s.ghost(sid).State = cp })
 }
 
-func (s *SpyStore) GetAuthorizationState(ctx context.Context, sid string) (*oidc.AuthorizationState, error) {
+func (s *SpyStore) GetAuthorizationState(ctx context.Context, key string) (*oidc.AuthorizationState, error) {
+	sid := s.W.CanonSID(key) // book-keeping by session id, whatever key naming the caller uses
 	var out *oidc.AuthorizationState
 	err := s.do("GetAuthorizationState", sid, nil, nil, func() error {
 		var e error
-		out, e = s.Real.GetAuthorizationState(ctx, sid)
+		out, e = s.Real.GetAuthorizationState(ctx, key)
 		return e
 	}, func() {})
 	if err != nil {
@@ -261,8 +286,9 @@ func (s *SpyStore) GetAuthorizationState(ctx context.Context, sid string) (*oidc
 	return out, nil
 }
 
-func (s *SpyStore) ClearAuthorizationState(ctx context.Context, sid string) error {
-	return s.do("ClearAuthorizationState", sid, nil, nil, func() error { return s.Real.ClearAuthorizationState(ctx, sid) },
+func (s *SpyStore) ClearAuthorizationState(ctx context.Context, key string) error {
+	sid := s.W.CanonSID(key) // book-keeping by session id, whatever key naming the caller uses
+	return s.do("ClearAuthorizationState", sid, nil, nil, func() error { return s.Real.ClearAuthorizationState(ctx, key) },
 		func() {
 			if g := s.Ghost[sid]; g != nil {
 				g.State = nil
@@ -270,9 +296,16 @@ func (s *SpyStore) ClearAuthorizationState(ctx context.Context, sid string) erro
 		})
 }
 
-func (s *SpyStore) RemoveSession(ctx context.Context, sid string) error {
-	return s.do("RemoveSession", sid, nil, nil, func() error { return s.Real.RemoveSession(ctx, sid) },
+func (s *SpyStore) RemoveSession(ctx context.Context, key string) error {
+	sid := s.W.CanonSID(key) // book-keeping by session id, whatever key naming the caller uses
+	return s.do("RemoveSession", sid, nil, nil, func() error { return s.Real.RemoveSession(ctx, key) },
 		func() {
+			if b, ok := s.Born[sid]; ok {
+				if s.removedBorn == nil {
+					s.removedBorn, s.removedIn = map[string]time.Time{}, map[string]int64{}
+				}
+				s.removedBorn[sid], s.removedIn[sid] = b, s.W.CurEnv().Seq
+			}
 			delete(s.Ghost, sid)
 			delete(s.Born, sid)
 			if s.RemovedBy == nil {
